@@ -2176,6 +2176,9 @@ def annotation_kind(repo: Repo, m: Module, ann: ast.expr, _depth: int = 0) -> st
 
 
 # ------------------------------------------------------------- entry points
+STATS = {"paths": 0, "functions": 0}      # what the interpreter analysed in this process (reported in the evidence)
+
+
 def analyse_method(ctx: Ctx, cls: ClassInfo, name: str) -> List[Path]:
     """All paths of ``cls.name`` with ``self`` abstract (children = attrs)."""
     r = cls.find_method(name)
@@ -2193,7 +2196,10 @@ def analyse_method(ctx: Ctx, cls: ClassInfo, name: str) -> List[Path]:
     ctx.unfolding.append((cls.qualname, name))
     ctx.root_cls = cls
     try:
-        return fr.run_function(fn, env, Path())
+        ps_ = fr.run_function(fn, env, Path())
+        STATS["paths"] += len(ps_)
+        STATS["functions"] += 1
+        return ps_
     finally:
         ctx.unfolding.pop()
 
@@ -2242,4 +2248,7 @@ def analyse_function(ctx: Ctx, module: Module, fn: ast.FunctionDef, env: Optiona
     if a.kwarg:
         e[a.kwarg.arg] = Child("**" + a.kwarg.arg)
     e.update(env or {})
-    return fr.run_function(fn, e, Path())
+    ps_ = fr.run_function(fn, e, Path())
+    STATS["paths"] += len(ps_)
+    STATS["functions"] += 1
+    return ps_
